@@ -9,6 +9,7 @@ import Imeta.Props.C12
 import Imeta.Model.Png
 import Imeta.Props.C11
 import Imeta.Lemmas.XmpTotal
+import Imeta.Lemmas.ExifWalk
 namespace Imeta.C02
 open Imeta
 
@@ -59,5 +60,42 @@ theorem C02_isobmff_loops_bounded {h : Bytes → Bmff.M Unit} (hp : ∀ t, Bmff.
 give up after at most 4 resp. 13 windows, every other loop (root search, tags, attributes, array items) consumes at least
 one byte per round -/
 theorem C02_xmp_terminates (b : Bytes) : ¬ Xmp.isFuel (Xmp.parseXmp b).1 := Xmp.parseXmp_total b
+
+/-- Exif: the directory walk (`readIfd`'s work loop over the pending-tag buffer, with child directories, sub-IFD
+lists and maker notes queued while it runs) ends for every input, byte order, tables and entry variant with the
+fuel 200·(length+16) the model passes.  The potential 4·(pending tags) + (unread bytes) − 4·(position) never grows
+inside the directory reader — every queued tag is paid for by at least four bytes consumed — and every round of the
+loop advances the position, so the potential falls by at least 4 per round: the number of rounds is at most
+(length)/4 + 1, linear in the input.  No function below the loop can report `fuel` (they are structurally recursive). -/
+theorem C02_exif_terminates (tb : Exif.Tables) (rest : Bytes) (buffered : Bool) (h : Exif.Hdr) :
+    Exif.decodeTiff tb rest buffered h ≠ .fuel ∧ Exif.decodeJPEGIfd tb rest buffered h ≠ .fuel ∧
+    Exif.decodeIfd tb rest buffered h ≠ .fuel :=
+  ⟨(Exif.decodeTiff_NF tb rest buffered h).h, (Exif.decodeJPEGIfd_NF tb rest buffered h).h, (Exif.decodeIfd_NF tb rest buffered h).h⟩
+
+/-- exif2.Parse (header search, then DecodeTiff) never runs out of fuel either -/
+theorem C02_exif_parse_terminates (tb : Exif.Tables) (b : Bytes) : Exif.parse tb b ≠ .fuel := by
+  unfold Exif.parse
+  have hs := (Tiff.C12_no_panic b (b.length + 1) (Nat.lt_succ_self _)).2
+  split
+  · rename_i hd _
+    have := (Exif.decodeTiff_NF tb (b.drop hd.offset) false { order := hd.order, firstIfd := hd.firstIfd, firstIfdType := Exif.ifd0, exifLength := 0, imageType := 0 }).h
+    intro hc
+    cases hx : Exif.decodeTiff tb (b.drop hd.offset) false { order := hd.order, firstIfd := hd.firstIfd, firstIfdType := Exif.ifd0, exifLength := 0, imageType := 0 } with
+    | ok v => simp [hx, Outcome.bind] at hc
+    | err k => simp [hx, Outcome.bind] at hc
+    | panic p => simp [hx, Outcome.bind] at hc
+    | fuel => exact this hx
+  · intro hc; cases hc
+  · intro hc; cases hc
+  · rename_i hq; simp [hq, Outcome.isFuel] at hs
+
+/-- the per-round decrease itself: a round of the work loop that continues does so from a state whose potential is at
+least 4 smaller (stated for the three kinds of round through `step_ok`) -/
+theorem C02_exif_round_decreases (r rn : Exif.R) (h : Exif.Pay 0 r rn) (hlt : r.pos < r.tags.length) :
+    Exif.M { rn with pos := rn.pos + 1 } + 4 ≤ Exif.M r := (Exif.step_ok r rn h hlt).2
+
+/-- non-vacuity: a fresh reader over 20 bytes meets the hypotheses of the loop theorem with the fuel it is given -/
+example : let r : Exif.R := { rest := List.replicate 20 0, po := 0, exifLength := 0, buffered := true }
+    r.pos ≤ r.tags.length ∧ Exif.M r < Exif.fuelFor r.rest := by decide
 
 end Imeta.C02
